@@ -14,7 +14,8 @@ import (
 type SolveCfg struct {
 	Slow  bool `json:"slow,omitempty"` // the certificate consumer pauses 120 ms after each of the first lines
 	Cert  bool `json:"cert"`
-	NbMax int  `json:"nbmax"` // 0: default
+	NbMax int  `json:"nbmax"`         // 0: default
+	Rst   int  `json:"rst,omitempty"` // > 0: the restart policy fires at one quiet point out of Rst (hook)
 	CP    bool `json:"cp"`
 	AMO   bool `json:"amo"`
 }
@@ -149,6 +150,9 @@ func genC01(r *rand.Rand, idx int, tier string) *SolveCase {
 		p.Front = "dimacs"
 		p.N = p.MaxVar() + r.Intn(3)
 	}
+	if r.Intn(4) == 0 {
+		cfg.Rst = 1 + r.Intn(6)
+	}
 	return &SolveCase{P: p, Cfg: cfg}
 }
 
@@ -160,7 +164,11 @@ func genC02(r *rand.Rand, idx int, tier string) *SolveCase {
 		nmax = 16
 	}
 	p := genProblem(r, fam, 1+r.Intn(nmax))
-	return &SolveCase{P: p, Cfg: SolveCfg{}}
+	cfg := SolveCfg{}
+	if r.Intn(4) == 0 {
+		cfg.Rst = 1 + r.Intn(6)
+	}
+	return &SolveCase{P: p, Cfg: cfg}
 }
 
 func verdictCode(st solver.Status) int {
@@ -201,6 +209,9 @@ func solveOnce(c *SolveCase) (verdict int, model []bool, cert [][]int, inv strin
 	s.CuttingPlanes = c.Cfg.CP
 	if c.Cfg.NbMax > 0 {
 		setNbMax(s, c.Cfg.NbMax)
+	}
+	if c.Cfg.Rst > 0 {
+		setRestart(s, c.Cfg.Rst)
 	}
 	var st solver.Status
 	if c.Cfg.Cert {
@@ -251,7 +262,7 @@ func solveOnce(c *SolveCase) (verdict int, model []bool, cert [][]int, inv strin
 
 func runSolve(e *emitter, idx int, c *SolveCase, withCert bool) {
 	csx := c.P.Sx()
-	meta := Meta{Class: c.P.Class + "/" + c.P.Front, Desc: c, Extra: map[string]interface{}{"cert": c.Cfg.Cert, "nbmax": c.Cfg.NbMax, "cp": c.Cfg.CP, "hooks": hooksOn}}
+	meta := Meta{Class: c.P.Class + "/" + c.P.Front, Desc: c, Extra: map[string]interface{}{"cert": c.Cfg.Cert, "nbmax": c.Cfg.NbMax, "cp": c.Cfg.CP, "rst": c.Cfg.Rst, "hooks": hooksOn}}
 	e.begin(idx, csx, meta)
 	var verdict int
 	var model []bool
@@ -303,6 +314,9 @@ func genC06(r *rand.Rand, idx int, tier string) *SolveCase {
 	}
 	if r.Intn(100) == 0 {
 		cfg.Slow = true
+	}
+	if r.Intn(4) == 0 {
+		cfg.Rst = 1 + r.Intn(6)
 	}
 	return &SolveCase{P: p, Cfg: cfg}
 }
